@@ -15,7 +15,7 @@ shutil.copy(os.path.join(sd, 'notes.md'), os.path.join(dst, 'notes.md'))
 files = sorted(set(re.findall(r'^\+\+\+ b/(\S+)', open(os.path.join(sd, 'patch.diff')).read(), re.M)))
 meta = {
  'property': pid, 'variant': v, 'files': files,
- 'origin': 'fresh sub-agent given only the property text and a scratch worktree (no access to /verif); second round',
+ 'origin': 'fresh sub-agent given only the property text and a scratch worktree (no access to /verif); round given in the variant letter (a,b first; c,d second; e,f third)',
  'needs_to_manifest': 'see notes.md (author\'s description); summary in DESIGN.md section 11',
  'confirmed_by_me': {'how': 'scripts/confirm_seed.sh in a scratch worktree: demo on clean tree; apply patch; go build; full pinned suite; demo with patch; revert', 'result': conf},
  'demo': 'demo_test.go.txt (copy to /repo/zz_demo_test.go to run: go test -vet=off -count=1 -run <Test> .)',
